@@ -31,7 +31,7 @@ def make_cfg(tier, ops, maxrestarts=0):
         cap = 90
     else:
         cfg = X.Cfg(bound=8, maxpoll=3, maxjobs=4, prios=(0, 1), timeouts=(10.0, 100.0), ops=set(ops), maxrestarts=maxrestarts)
-        cap = 1500
+        cap = 1200
     for kv in filter(None, os.environ.get("VERIF_QS", "").split(",")):
         k, v = kv.split("=")
         if k == "cap":
@@ -51,9 +51,9 @@ class C16:
         # client-chosen integer ids next to server-numbered jobs: the id a client picked may be the next serial number
         intids = narrow_cfg(tier, {"add", "addanon", "pull", "eof", "finish"}, maxjobs=3, bound=8 if tier == "quick" else 10, idnames=(2, 1, 3))
         falsy = narrow_cfg(tier, {"add", "readd", "pull", "eof", "finish", "kill"}, bound=8 if tier == "quick" else 10, idnames=("", 0))
-        return X.search_phases(self.id, [("wide", cfg, cap), ("narrow-deep", narrow, 60 if tier == "quick" else 1500),
-                                         ("integer-ids", intids, 60 if tier == "quick" else 900),
-                                         ("falsy-ids", falsy, 60 if tier == "quick" else 900)], tier, seed,
+        return X.search_phases(self.id, [("wide", cfg, cap), ("narrow-deep", narrow, 60 if tier == "quick" else 600),
+                                         ("integer-ids", intids, 60 if tier == "quick" else 300),
+                                         ("falsy-ids", falsy, 60 if tier == "quick" else 300)], tier, seed,
                                self.families, rule=RULE + "; second phase: the narrow configuration (1 channel, 2 workers, 2 jobs) to a deeper bound; third phase: client-chosen integer ids (2, 1, 3) mixed with server-numbered jobs; fourth phase: ids '' and 0 (falsy in Python) with re-adds",
                                assumptions=ASSUME, gate=gate)
 
